@@ -49,14 +49,17 @@ const (
 )
 
 type RT struct {
-	mu      sync.Mutex
-	tasks   map[uint64]*task
-	parked  map[string]*task
-	pending map[uint64]string
-	nextTok uint64
-	notify  chan struct{}
-	live    int
-	D       Drawer
+	mu       sync.Mutex
+	tasks    map[uint64]*task
+	parked   map[string]*task
+	pending  map[uint64]string
+	nextTok  uint64
+	notify   chan struct{}
+	live     int
+	hlive    int // live harness tasks (started with Go)
+	hstarted bool
+	Leaked   int // SUT tasks still alive when all harness tasks had finished
+	D        Drawer
 
 	Steps       int
 	MaxSteps    int
@@ -284,10 +287,15 @@ func (r *RT) Go(name string, f func()) {
 	tok := r.nextTok
 	r.pending[tok] = name
 	r.live++
+	r.hlive++
+	r.hstarted = true
 	r.mu.Unlock()
 	go func() {
 		r.GoStart(tok)
 		defer func() {
+			r.mu.Lock()
+			r.hlive--
+			r.mu.Unlock()
 			rec := recover()
 			var st []byte
 			if rec != nil {
@@ -391,6 +399,13 @@ func (r *RT) Run() {
 		synctest.Wait()
 		r.mu.Lock()
 		if r.aborted {
+			r.mu.Unlock()
+			return
+		}
+		if r.hstarted && r.hlive == 0 {
+			// every harness task has returned: whatever is left of the system
+			// under test is a leaked goroutine, not part of the operation
+			r.Leaked = r.live
 			r.mu.Unlock()
 			return
 		}
